@@ -5,7 +5,7 @@ props = {json.loads(l)['id']: json.loads(l) for l in open('/verif/properties.jso
 hook_commits = subprocess.check_output(['git','-C','/repo','log','--format=%h %s']).decode().strip().split('\n')
 hook_commits = [l.split()[0] for l in hook_commits if 'verif hooks' in l][::-1]
 NOTES = {
- 'C01': ("runtime layer: 24 spawn/join programs (go!, Builder with custom stack and id, spawn_local; ret / yield / sleep / park / panic / cancel / nested / scoped), workers 1-2, run queues positioned at their 32/64-slot block boundaries, 10 ms polling variants", "§6 C01"),
+ 'C01': ("runtime layer: 24 spawn/join programs (go!, Builder with custom stack and id, spawn_local; ret / yield / sleep / park / panic / cancel / nested / scoped), workers 1-2, run queues positioned at their 32/64-slot block boundaries, 10 ms polling variants; the whole family runs twice, on the default runtime (work_steal) and on a second build of the runtime without work_steal", "§6 C01"),
  'C02': ("ThreadPark through Blocker (fine), coroutine::park / park_timeout sequences with unpark-after-return handshake, fresh Blocker parks with timeout / cancel / ignore_cancel, thread and coroutine unparkers, T2 clock deviations", "§6 C02"),
  'C03': ("component layer, fine granularity with post-store points: mpsc and spsc block queues at block-boundary offsets, 2 producers x consumer programs, brute-force FIFO linearizability + exactly-once + drop counters; exhaustive sequential sweeps vs VecDeque", "§6 C03"),
  'C04': ("component layer, fine: spmc Local/Steal (owner push/pop vs 1-2 stealers' steal_into) and raw Queue pop/bulk_pop at block-boundary offsets; exactly-once, owner/batch order, newest-of-batch, drop counters; ABA member: stealer stalled across two blocks of owner push/pop under the recycling allocator", "§6 C04"),
@@ -49,7 +49,7 @@ for pid in sorted(props):
         na.append({"property_id": pid, "reason": "check under construction in this session (model checking applies, see DESIGN.md §6); will be registered when its scenarios exist"})
 m = {
  "version": 1,
- "setup_cmd": "cd /verif/harness && CARGO_NET_OFFLINE=true cargo build --offline",
+ "setup_cmd": "cd /verif/harness && CARGO_NET_OFFLINE=true cargo build --offline && CARGO_TARGET_DIR=/verif/target-hooks-nosteal cargo build --offline --no-default-features",
  "hooks": {
    "guard": "may_verif",
    "enable": "RUSTFLAGS --cfg may_verif, set in /verif/harness/.cargo/config.toml; the harness crate path-depends on /repo so every check rebuilds from /repo's working tree",
